@@ -26,6 +26,29 @@ pub fn answer(req: &str) -> String {
     first
 }
 
+fn dec_bytes(s: &str) -> Option<Vec<u8>> {
+    let b = s.as_bytes();
+    if s == "%" {
+        return Some(Vec::new());
+    }
+    let mut out = Vec::with_capacity(b.len());
+    let mut i = 0;
+    while i < b.len() {
+        if b[i] == b'%' {
+            if i + 2 >= b.len() + 0 && i + 2 > b.len() {
+                return None;
+            }
+            let h = std::str::from_utf8(b.get(i + 1..i + 3)?).ok()?;
+            out.push(u8::from_str_radix(h, 16).ok()?);
+            i += 3;
+        } else {
+            out.push(b[i]);
+            i += 1;
+        }
+    }
+    Some(out)
+}
+
 fn answer_once(req: &str) -> String {
     // an optional fourth field (`expect=..`) is for the model driver only
     let parts: Vec<&str> = req.splitn(4, " | ").collect();
@@ -37,7 +60,8 @@ fn answer_once(req: &str) -> String {
         return "BADREQ".into();
     }
     let interpreted = head[1] == "i";
-    let src = match dec(parts[1].trim()) {
+    // the source file is arbitrary bytes (not necessarily UTF-8)
+    let src: Vec<u8> = match dec_bytes(parts[1].trim()) {
         Some(s) => s,
         None => return "BADREQ".into(),
     };
@@ -51,7 +75,7 @@ fn answer_once(req: &str) -> String {
     let srcf = format!("{}/p{}.s", dir, pid);
     let trf = format!("{}/p{}.trace", dir, pid);
     let _ = std::fs::remove_file(&trf);
-    if std::fs::write(&srcf, src.as_bytes()).is_err() {
+    if std::fs::write(&srcf, &src).is_err() {
         return "BADREQ".into();
     }
     let mut cmd = Command::new(cli_path());
